@@ -531,6 +531,26 @@ class Interp:
             d[key] = self.ev(v, fr)
         return VDict(d)
 
+    def ev_ListComp(self, node, fr):
+        # comprehensions over concrete-length iterables are unrolled; others yield an untracked list
+        if len(node.generators) == 1 and not node.generators[0].ifs:
+            g = node.generators[0]
+            it = self.ev(g.iter, fr)
+            if isinstance(it, (VTuple, VList)):
+                out = []
+                sub = Frame(fr.func, dict(fr.locals), fr.module, fr.cls)
+                sub.spec = fr.spec
+                sub.old = fr.old
+                for x in it.items:
+                    self.assign_target(g.target, x, sub)
+                    out.append(self.ev(node.elt, sub))
+                return VList(out)
+        self.path.notes.append('untracked comprehension at line %d' % node.lineno)
+        return VAbsList('list')
+
+    def ev_GeneratorExp(self, node, fr):
+        return self.ev_ListComp(node, fr)
+
     def ev_JoinedStr(self, node, fr):
         return VStr(self.path.fresh_str('fstr'))
 
@@ -714,6 +734,12 @@ class Interp:
             raise OutOfSubset('symbolic index into concrete tuple/list')
         if isinstance(base, VDict):
             return self.dict_get(base, idx, fr)
+        if isinstance(base, VConst) and base.kind == 'objseq':
+            i = self.as_int(idx)
+            if not fr.spec:
+                if not self.path.branch(z3.And(i >= 0, i < base.py.length), 'index'):
+                    self.raise_builtin('IndexError', 'list index out of range')
+            return base.py.at(self, i)
         if isinstance(base, VMap):
             k = base.key_term(self, idx)
             if k is None:
@@ -880,6 +906,8 @@ class Interp:
                 kv = VInt(k) if isinstance(k, int) else VStr(k)
                 ks.append(v_eq(item, kv))
             return z3.Or(ks) if ks else z3.BoolVal(False)
+        if isinstance(container, VConst) and container.kind == 'extern':
+            return self.path.fresh_bool('in_extern')      # membership in a stdlib constant (string.printable, ...)
         if isinstance(container, VMap):
             k = container.key_term(self, item)
             return container.has(k) if k is not None else z3.BoolVal(False)
@@ -1297,6 +1325,12 @@ class Interp:
                 return VInt(nat(*[v.t.as_long() for v in argvals]))
         sorts = []
         terms = []
+        if any(v is VNone for v in argvals):
+            # ill-typed sub-term of a clause (guarded elsewhere in the clause): unspecified value
+            rk = self.reg.return_kind(func)
+            p_ = self.path
+            return {'Int': lambda: VInt(p_.fresh_int('undef')), 'Bool': lambda: VBool(p_.fresh_bool('undef')),
+                    'Seq': lambda: VSeq(p_.fresh_seq('undef'), 'list'), 'Str': lambda: VStr(p_.fresh_str('undef'))}[rk]()
         for v in argvals:
             if isinstance(v, VInt):
                 sorts.append(IntS); terms.append(v.t)
@@ -1799,6 +1833,10 @@ class Interp:
                 if isb:
                     self.path.assume(z3.And(e >= 0, e <= 255))
                 return VInt(e)
+        elif isinstance(it, VStr):
+            str_t = it.t
+            lo, hi = z3.IntVal(0), z3.Length(str_t)
+            elem = lambda i: VStr(z3.SubString(str_t, i, 1))
         elif isinstance(it, VConst) and it.kind == 'objseq':
             oseq = it.py
             lo, hi = z3.IntVal(0), oseq.length
